@@ -458,6 +458,81 @@ pub fn run_idle_burst(ctx: &Ctx, case: u64) {
     }
 }
 
+/// Pairs of conversions a few microseconds apart, then silence: the second receiver already holds a
+/// message, which its stream must yield although nothing else happens anywhere (a registration
+/// that the routing thread overlooks stays unnoticed as long as other traffic keeps it cycling).
+pub fn run_pair_storm(ctx: &Ctx, case: u64) {
+    let rep = &ctx.rep;
+    let mut r = Rng::derive(ctx.seed, 0xc20c, case);
+    let trials = ctx.opt_u64("pair_trials", 200);
+    let mut problems: Vec<(String, Value)> = Vec::new();
+    let mut done = 0u64;
+    for t in 0..trials {
+        let (txa, rxa) = must("channel", ipc::channel::<M>());
+        let (txb, rxb) = must("channel", ipc::channel::<M>());
+        let tag = t as u32;
+        if txb.send((tag, 0, Blob(body(mid(case, tag, 0), 24)))).is_err() {
+            problems.push(("send-failed".into(), json!({"trial": t})));
+            break;
+        }
+        let gap_ns = r.below(150_000);
+        let sa = rxa.to_stream();
+        let t0 = now_ns();
+        while now_ns() - t0 < gap_ns {
+            std::hint::spin_loop();
+        }
+        let mut sb = rxb.to_stream();
+        let cw = Arc::new(CountWaker(AtomicU64::new(0)));
+        let mut got = None;
+        for _ in 0..3 {
+            let base = cw.0.load(Ordering::SeqCst);
+            let w = waker(cw.clone());
+            let mut cx = Context::from_waker(&w);
+            match Pin::new(&mut sb).poll_next(&mut cx) {
+                Poll::Ready(it) => {
+                    got = Some(it);
+                    break;
+                },
+                Poll::Pending => {
+                    let cw2 = cw.clone();
+                    match await_cond(20_000, &move || cw2.0.load(Ordering::SeqCst) > base) {
+                        Ok(true) => continue,
+                        Ok(false) => {
+                            problems.push(("pair:queued-message-never-delivered".into(), json!({"trial": t, "gap_ns": gap_ns,
+                                "why": "stream created right after another one; its queued message was not yielded although every thread is idle"})));
+                            break;
+                        },
+                        Err(e) => {
+                            rep.inconclusive(&format!("c20 pair case {}: {}", case, e));
+                            return;
+                        },
+                    }
+                },
+            }
+        }
+        match got {
+            Some(Some(Ok((tg, 0, b)))) if tg == tag && body_diff(mid(case, tag, 0), 24, &b.0).is_none() => {},
+            Some(other) => problems.push(("pair:wrong-item".into(), json!({"trial": t, "got": format!("{:?}", other.map(|x| x.map(|m| (m.0, m.1)).map_err(|e| e.to_string())))}))),
+            None => {},
+        }
+        done += 1;
+        drop((txa, txb, sa, sb));
+        if !problems.is_empty() {
+            break;
+        }
+    }
+    rep.case(&("pair-storm", case), true);
+    rep.stat("pair_storm_scenarios", 1);
+    rep.stat("pair_storm_trials", done as i64);
+    let base = json!({"case": case, "scenario": "pair-storm", "trials": done});
+    let mut seen = std::collections::BTreeSet::new();
+    for (kind, d) in problems {
+        if seen.insert(kind.clone()) {
+            rep.violation(&format!("C20:{}", kind), json!({"ctx": base, "problem": d}), ctx.replay(case));
+        }
+    }
+}
+
 pub fn run(ctx: &Ctx) {
     let n = ctx.opt_u64("cases", if ctx.thorough { 300 } else { 20 });
     for i in 0..n {
@@ -465,7 +540,9 @@ pub fn run(ctx: &Ctx) {
         if !ctx.want(case) {
             continue;
         }
-        if i % 3 == 2 {
+        if i % 4 == 3 {
+            run_pair_storm(ctx, case);
+        } else if i % 3 == 2 {
             run_idle_burst(ctx, case);
         } else {
             run_case(ctx, case);
